@@ -124,13 +124,14 @@ class C02(DecProp):
     id = "C02"
     thm_module = "H263V.Thm.C02"
     rule = ("P lines: one generated intra picture per line (Sorenson v0 / v1, baseline H.263, PLUSPTYPE custom format; sizes 1x1 MB, one row, one column, "
-            "non-multiples of 16, >= 3x3 MB; quantizer, DQUANT, INTRADC, short / 7- / 8- / 11-bit escape events, stuffing, PEI bytes, truncated pictures) written by "
+            "non-multiples of 16, >= 3x3 MB, and widths / heights at the top of the 16-bit range; quantizer, DQUANT, INTRADC, short / 7- / 8- / 11-bit escape events, stuffing, PEI bytes, truncated pictures) written by "
             "the specification encoder, decoded by the real H263State vs. the Lean model; planes compared by FNV-1a hash, plane sizes and chroma stride explicitly.  "
             "Non-trivial: the picture decodes; distinct by text.")
     assumptions = ["the ideal-transform clause is delegated to C10 (Annex A accuracy of the same soft-float IDCT model)"]
 
     def cases(self, tier, rng):
-        return core.gen_lines("intra", rng.randint(1, 10 ** 6), core.q(tier, 500, 8000))
+        # plus declared sizes at the top of the 16-bit range (one dimension 65521..65535, the other small)
+        return core.gen_lines("intra", rng.randint(1, 10 ** 6), core.q(tier, 500, 8000)) + core.gen_lines("edgesizes", rng.randint(1, 10 ** 6), core.q(tier, 6, 0) if tier == "quick" else 0)
 
 
 @register
@@ -288,7 +289,7 @@ class C05(DecProp):
 class C13(DecProp):
     id = "C13"
     thm_module = "H263V.Thm.C13"
-    rule = ("PP lines: a generated complete intra picture of every width x height (quick: 1..24 x 1..24; thorough: 1..40 x 1..40, plus the mixed intra generator) and a random "
+    rule = ("PP lines: a generated complete intra picture of every width x height (quick: 1..24 x 1..24; thorough: 1..40 x 1..40, plus the mixed intra generator, plus sizes with one dimension at the top of the 16-bit range) and a random "
             "quantizer is decoded by the real H263State; each plane is deblocked with QUANT_TO_STRENGTH[quantizer] and the result converted by yuv420_to_rgba, under "
             "catch_unwind with debug assertions on; outcome, RGBA length and hash compared with the model pipeline.  Non-trivial: the picture decodes and is post-processed; distinct by text.")
 
@@ -296,6 +297,7 @@ class C13(DecProp):
         out = core.gen_lines("sizes", rng.randint(1, 10 ** 6), core.q(tier, 24, 40))
         more = core.gen_lines("intra", rng.randint(1, 10 ** 6), core.q(tier, 150, 3000))
         out += ["PP " + l.split(" ")[1] + " " + l.split(" ")[2][2:] for l in more]
+        out += core.gen_lines("edgesizespp", rng.randint(1, 10 ** 6), core.q(tier, 6, 0) if tier == "quick" else 0)
         return out
 
     def compare(self, case, impl, other):
